@@ -60,6 +60,24 @@ CLAIMS["C11"] = dict(level="model_checking", tech="TLA+ transcription of the C p
          "tmpfile / redirected stdout, twice in different orders) and every event is judged by TracePrintf.tla",
     ref="§3 C11", note="floating accuracy: digit-string comparison against glibc's expansion (trusted), no IEEE model; %g %G %a %A %p have no text oracle; wide printf text not judged; known limitations of the embedded float formatter are named deviations (known_findings.txt)")
 
+CLAIMS["C10"] = dict(level="model_checking", tech="TLA+ definitions of the standard query functions (StrQuery.tla) + TLC-enumerated operand space replayed into the real functions in guarded memory + TLC trace validation",
+    text="the expected answer of every comparison / search / span / length / classification function is written in TLA+ from the standard "
+         "function's definition restricted to the first dmax (and slen) elements; TLC enumerates all operand pairs over a small alphabet (case pair, "
+         "high-bit byte, digit, blank) with lengths 0..K and dmax/slen below, at and above the string lengths, checks C10_T (operands unmodified, "
+         "antisymmetry of comparisons) and every call is executed with both operands flush against inaccessible pages and judged by TraceArena.tla",
+    ref="§3 C10", note=ARENA_NOTE + "; strnatcmp_s/wcsnatcmp_s/wcsicmp_s/wcscoll_s have no oracle here")
+CLAIMS["C12"] = dict(level="model_checking", tech="TLA+ interleaving model of scratch storage (Threads.tla) checked by TLC + per-call static-footprint observation of the library's .data/.bss validated by TraceThreads.tla",
+    text="TLC explores all interleavings of threads whose calls stage intermediate values in automatic or static scratch: NonInterference holds iff no "
+         "function uses static scratch; the code is bound to that premise by the property's schedule-independent formulation: for every probe (each "
+         "function / scratch site) the library's writable segments are bit-identical before and after the call; an observed footprint is fed back into "
+         "the model, which then exhibits the corrupting interleaving",
+    ref="§3 C12", note="statics inside libc are outside the snapshot; first-call-only initialisation is hidden by the warm-up call; TLS is not snapshotted; trusted: dl_iterate_phdr segment bounds, harness/hstat.c")
+CLAIMS["C20"] = dict(level="fault_enumeration", tech="TLA+ allocation-discipline machine (Alloc.tla) + enumeration of every allocating call site x failing position with an interposed allocator + TLC trace validation",
+    text="every scenario reaching an allocating call site is run once without faults (leak check) and once per allocation request with that request "
+         "failing; the allocator event sequence of each run must be a behaviour of Alloc.tla: no crash, no use of a failed request, every block freed "
+         "before return, failure indication and cleared dest after a failed request",
+    ref="§3 C20", note="single failures; call sites reached through the listed scenarios (coverage.scenario_list); libc-internal allocations are not failed; trusted: -Wl,--wrap interposition, harness/halloc.c")
+
 NOT_YET = {
 }
 
